@@ -518,9 +518,33 @@ def c17(res, scenario) -> list[Violation]:
     CALL = {"PAUSE": "try_pause_call", "RESUME": "resume_call", "SAVE_STATE": "save_state_call",
             "SHUTDOWN": "shutdown_call"}
     pending_cmd = None
+    depth = 0                      # nesting of try_pause / resume / save_state / shutdown calls
+    save_due = False               # the save condition came out true in this tick
+    OPEN = {"try_pause_call", "resume_call", "save_state_call", "shutdown_call"}
+    CLOSE = {"try_pause_ret", "resume_ret", "save_state_ret", "shutdown_ret", "try_pause_raise", "resume_raise",
+             "save_state_raise", "shutdown_raise"}
+    NEED = {"try_pause_call": "PAUSE", "resume_call": "RESUME", "save_state_call": "SAVE_STATE"}
     for i, (th, kind, obj, val) in enumerate(ev):
         if th != "control":
             continue
+        if kind == "savecond":
+            save_due = True
+        elif kind == "loop_sleep":
+            save_due = False
+        # ... and nothing is carried out that was not accepted: a pause / resume / save at the top level of
+        # the control loop answers the command just taken off the queue (a save also the save condition)
+        if kind in NEED and depth == 0 and not any(e[1] == "interrupt" for e in ev[max(0, i - 3):i]):
+            asked = pending_cmd is not None and pending_cmd[0] == NEED[kind]
+            if not asked and not (kind == "save_state_call" and save_due):
+                out.append(Violation("c17:executed-without-command",
+                                     f"the control loop carried out {NEED[kind]} (event {i}) although no such command "
+                                     f"had just been taken off the queue", case))
+            if kind == "save_state_call" and not asked:
+                save_due = False
+        if kind in OPEN:
+            depth += 1
+        elif kind in CLOSE:
+            depth = max(0, depth - 1)
         if pending_cmd is not None:
             name, j = pending_cmd
             if kind == CALL[name]:
@@ -611,11 +635,11 @@ def c08(res, scenario) -> list[Violation]:
     ev, tm = res.events, res.times
     # (a)/(b) launch ends only for a cause; framework bookkeeping never kills a thread
     for th, kind, obj, val in ev:
-        if kind == "exit" and th in BG and val not in (None, "InjectedFault"):
+        if kind == "exit" and th in BG and val not in (None, "InjectedFault", "WeirdFault"):
             out.append(Violation(f"c08:framework-exception:{val}",
                                  f"the {th} thread died of {val}, raised by framework bookkeeping "
                                  f"(no user callback raised)", case))
-    if res.outcome.startswith("raised") and "InjectedFault" not in res.outcome and \
+    if res.outcome.startswith("raised") and "InjectedFault" not in res.outcome and "WeirdFault" not in res.outcome and \
             "KeyboardInterrupt" not in res.outcome:
         out.append(Violation(f"c08:launch-raised:{res.outcome.split(':')[1]}",
                              f"launch() raised {res.outcome} without any user fault", case))
@@ -682,12 +706,18 @@ def c16(res, scenario) -> list[Violation]:
     scale, paused, sys_t, last = 1.0, False, 0.0, res.times[0]
     starts: list[tuple[float, int, bool]] = []
     ends: list[tuple[float, int]] = []        # the loop delay that follows each step's interval adjustment
+    step_end: dict[int, float] = {}           # index into `ends` -> system time at which that step's body ended
+    disturbed: set[int] = set()               # boundaries preceded by a pause / scale change since the previous one
     stepped = False
+    dirty = False
+    last_affect = None
     for i, (th, kind, obj, val) in enumerate(res.events):
         t = res.times[i]
         if not paused:
             sys_t += (t - last) * scale
         last = t
+        if th == "control" and kind in ("clock_pause", "clock_resume", "try_pause_call", "clock_set_time_scale"):
+            dirty = True
         if th == "control" and kind == "clock_pause":
             paused = True
         elif th == "control" and kind == "clock_resume":
@@ -697,9 +727,16 @@ def c16(res, scenario) -> list[Violation]:
         elif th == "inference" and kind == "cb_begin" and obj == "env.observe":
             starts.append((sys_t, i, paused))
             stepped = True
+        elif th == "inference" and kind == "cb_end" and obj == "env.affect":
+            last_affect = sys_t
         elif th == "inference" and kind == "loop_sleep" and stepped:
+            if dirty:
+                disturbed.add(len(ends))
+            if last_affect is not None:
+                step_end[len(ends)] = last_affect
             ends.append((sys_t, i))
             stepped = False
+            dirty = False
     for (_a, _i, _pa), (b, j, pb) in zip(starts, starts[1:]):
         if pb:
             out.append(Violation("c16:step-while-clock-frozen",
@@ -710,13 +747,60 @@ def c16(res, scenario) -> list[Violation]:
     # delay later): consecutive boundaries are at least interval - offset apart in system time. Step
     # starts follow their boundary by the loop overhead (the loop guard, after a pause also the resume
     # hooks), which the property's wording leaves out (DESIGN 7.16: "up to the overhead terms").
-    for (a, i), (b, j) in zip(ends, ends[1:]):
+    q = float(scenario.get("loop_quantum", 0.25)) * scale      # a boundary is observed one loop delay late
+    for k, ((a, i), (b, j)) in enumerate(zip(ends, ends[1:]), start=1):
         if b - a < w - 1e-6:
             out.append(Violation("c16:gap",
                                  f"two consecutive step boundaries are {b - a:.6g} s apart in system time "
                                  f"(events {i}, {j}), less than interval - offset = {w:.6g} s", case))
             break
+        # ... and exactly that far apart when the step itself is shorter: the boundary is not later than
+        # max(previous boundary + w, end of the step's body) - unless a pause or a rate change fell in between
+        if k not in disturbed and k in step_end:
+            want = max(a + w, step_end[k] + q)
+            if b > want + 1e-6:
+                out.append(Violation("c16:late",
+                                     f"step boundary at {b:.6g} (event {j}) although the previous one was at {a:.6g}, "
+                                     f"interval - offset = {w:.6g} and the step's body ended at {step_end[k]:.6g}: "
+                                     f"expected {want:.6g} - the step was held up by something other than its own "
+                                     f"duration", case))
+                break
     return out
 
 
-ALL = {"C16": c16, "C08": c08, "C01": c01, "C02": c02, "C03": c03, "C04": c04, "C09": c09, "C17": c17}
+def c18(res, scenario) -> list[Violation]:
+    """State retention inside the running system: after every cleanup of the control loop exactly the
+    max_keep most recently saved runtime states are left (every state the control thread saved - running or
+    paused, by command or by condition - has been handed to the keeper)."""
+    out: list[Violation] = []
+    mk = scenario.get("keeper_max_keep")
+    if mk is None or scenario.get("prelaunch") or scenario.get("archive_states"):
+        return out
+    case = case_of(res, scenario)
+    saved: list[str] = []
+    depth = 0
+    for i, (th, kind, obj, val) in enumerate(res.events):
+        if th != "control":
+            continue
+        if kind == "save_state_call":
+            depth += 1
+        elif kind in ("save_state_ret", "save_state_raise"):
+            depth = max(0, depth - 1)
+        elif kind == "save_end" and depth > 0:
+            saved.append(obj)
+        elif kind == "cleanup_listing":
+            want = sorted(saved[len(saved) - mk:] if mk else [])
+            have = sorted(val)
+            if have != want:
+                newest_gone = [n for n in want if n not in have]
+                kept_old = [n for n in have if n not in want]
+                out.append(Violation(
+                    "c18:system:" + ("newest-deleted" if newest_gone else "older-kept"),
+                    f"after the cleanup at event {i} the states directory holds {have}; the {mk} most recently "
+                    f"saved states are {want}" + (f" - {kept_old} is older and was not deleted" if kept_old else "")
+                    + (f" - {newest_gone} was deleted" if newest_gone else ""), case))
+                break
+    return out
+
+
+ALL = {"C18": c18, "C16": c16, "C08": c08, "C01": c01, "C02": c02, "C03": c03, "C04": c04, "C09": c09, "C17": c17}
